@@ -197,8 +197,9 @@ def _annot_pairs(texpr, mask, kind, path='', order=None):
         for p in _inner_pairs(texpr):
             for q in (p, p + '0', p + '1'):
                 order.setdefault(q, len(order))
-        for forbidden in [p for p in list(order) if _is_collection_arg(texpr, p)]:
-            order[forbidden] = None
+        if kind == 'field':     # a field annotation on the direct argument of a collection type is not allowed
+            for forbidden in [p for p in list(order) if _is_collection_arg(texpr, p)]:
+                order[forbidden] = None
     e = {'prim': texpr['prim']}
     if 'args' in texpr:
         e['args'] = [_annot_pairs(a, mask, kind, path + str(i), order) for i, a in enumerate(texpr['args'])]
